@@ -172,6 +172,9 @@ def gen_density(rng):
     r = rng.random()
     if r < 0.1:
         return rng.choice([1.0, 0.9982, 25.0, 1e-3, 2.2, 19.3])
+    if r < 0.14:
+        # a dilute gas is not a vacuum: every density in (0, 25] is a density
+        return 10.0 ** rng.uniform(-14, -5)
     return math.exp(rng.uniform(math.log(1e-3), math.log(25.0)))
 
 
